@@ -93,8 +93,8 @@ type Ctx struct {
 	// began: Violated() speaks about the running case, so that a known finding met in one case does not end the work of the
 	// cases which follow in the same shard
 	violCount, violBase int
-	maxSamples int
-	outDir     string
+	maxSamples          int
+	outDir              string
 	// harnessErrors panics raised by harness own code: inconclusive, never a violation
 	harnessErrors []string
 	// inconclusive reasons reported by the monitor itself (checker timeout, hook never reached)
